@@ -895,3 +895,48 @@ def copy_battery(rng, kind, to, base_id=990):
                 if kind == "poll":
                     out.append({"op": "poll", "id": c, "ch": ch})
     return out
+
+
+# ----------------------------------------------------------------------------- the real clock
+
+def real_time_script(rng, n_late=120, n_early=3000, first_id=930):
+    """Production configuration (real `Instant`), finite timeouts.  Real time only ever runs AHEAD of what
+    a script declares (calls take time, sleeps guarantee at least their length), so a script is safe from
+    scheduling noise if no outcome depends on real time being SHORT:
+      part A, timeout 3 ms: every poll directly follows a real sleep of timeout + 1 ms - whatever is
+        pending is overdue both in the declared and in the real time;
+      part B, timeout 10 min: no waiting at all - every poll is early unless the run stalls for 10 minutes."""
+    out = []
+    a, b = first_id, first_id + 1
+    to = 3
+    out.append({"op": "new", "id": a, "k": "poll", "to": to})
+    chans = rng.sample(range(16), 2)
+    tr = Traffic(rng, "poll", chans)
+    for _ in range(n_late):
+        for _ in range(rng.randrange(1, 9)):
+            out.append({"op": "feed", "id": a, "m": tr.msg(), "f": impl(rng)})
+        if rng.random() < 0.3:
+            msg = rand_pn_msg(rng)
+            msg[0] = rng.choice(chans)
+            ord_ = rng.choice(["msb", "lsb"])
+            nbytes = 4 if msg[4] == 1 else 3
+            out.append({"op": "encpn", "id": a, "msg": msg, "ord": ord_, "gk": "rtp", "more": 1})
+            out.append({"op": "tick", "id": a, "dt": to + 1, "sleep": True})
+            out.append({"op": "poll", "id": a, "ch": msg[0],
+                        "grp": {"k": "rtp", "i": nbytes + 1, "n": nbytes + 1, "msg": msg, "ord": ord_}})
+        else:
+            out.append({"op": "tick", "id": a, "dt": to + 1, "sleep": True})
+            out.append({"op": "poll", "id": a, "ch": rng.choice(chans)})
+            if rng.random() < 0.3:
+                out.append({"op": "poll", "id": a, "ch": rng.choice(chans)})      # nothing can be pending any more ... on that channel or is overdue on the other
+    out.append({"op": "new", "id": b, "k": "poll", "to": 600000})
+    tr = Traffic(rng, "poll", pick_chans(rng))
+    for _ in range(n_early):
+        r = rng.random()
+        if r < 0.7:
+            out.append({"op": "feed", "id": b, "m": tr.msg(), "f": impl(rng)})
+        elif r < 0.98:
+            out.append({"op": "poll", "id": b, "ch": rng.choice(tr.chans)})
+        else:
+            out.append({"op": "reset", "id": b})
+    return out
